@@ -12,6 +12,7 @@ import (
 	"net/http"
 	"os"
 	"runtime"
+	"strconv"
 	"strings"
 	"sync"
 	"sync/atomic"
@@ -21,6 +22,7 @@ import (
 	"google.golang.org/genproto/googleapis/api/annotations"
 	"google.golang.org/genproto/googleapis/api/httpbody"
 	"google.golang.org/grpc"
+	"google.golang.org/grpc/metadata"
 	"google.golang.org/protobuf/encoding/protojson"
 	"google.golang.org/protobuf/proto"
 	"google.golang.org/protobuf/reflect/protoreflect"
@@ -112,6 +114,12 @@ func verify(m protoreflect.Message) (id, seq int, err error) {
 // them, it must never write to them or hand them to a pool.
 var assetSizes = []int{100, 1000, 3000}
 
+// Trailer metadata of the streaming handlers: staticTrailer is one long-lived MD that every call hands to
+// SetTrailer first (the handlers never write it), then each call sets its own id.
+const trStatic, trID = "x-c13-static", "x-c13-id"
+
+var staticTrailer = metadata.Pairs(trStatic, "s")
+
 func pristineAsset(k int) []byte { return filler(9000+k, 0, assetSizes[k]) }
 
 // ---------------------------------------------------------------------------
@@ -120,6 +128,8 @@ func pristineAsset(k int) []byte { return filler(9000+k, 0, assetSizes[k]) }
 type CallSpec struct {
 	Transport string `json:"transport"` // grpc | grpc-gzip | grpcweb | httpjson | httpproto | httpjson-gzip
 	Sizes     []int  `json:"sizes"`     // filler size of each message
+	// foreign: the call is answered by a fixture backend, whose handlers set no trailer metadata
+	foreign bool
 }
 
 type ICase struct {
@@ -190,9 +200,8 @@ func encodeCall(w *dyn.World, id int, cs CallSpec) (*http.Request, error) {
 	return drive.Request("POST", "/c13/bidi", "", hdr, bytes.NewReader(b), -1), nil
 }
 
-func decodeReplies(w *dyn.World, cs CallSpec, res drive.Result) ([]protoreflect.Message, error) {
+func decodeReplies(w *dyn.World, cs CallSpec, res drive.Result) (out []protoreflect.Message, rerr error) {
 	md := w.MsgDesc("un.All")
-	var out []protoreflect.Message
 	b := res.Rec.Body.Bytes()
 	switch {
 	case strings.HasPrefix(cs.Transport, "grpc"):
@@ -200,6 +209,25 @@ func decodeReplies(w *dyn.World, cs CallSpec, res drive.Result) ([]protoreflect.
 		if err != nil {
 			return nil, err
 		}
+		// the handler's trailer metadata: a long-lived MD shared by all calls, then this call's id
+		var trailers map[string][]string
+		if !strings.HasPrefix(cs.Transport, "grpcweb") && len(res.Trailer.Values("Grpc-Status")) > 0 {
+			trailers = map[string][]string{trStatic: res.Trailer.Values(trStatic), trID: res.Trailer.Values(trID)}
+		}
+		defer func() {
+			if rerr != nil || trailers == nil || len(out) == 0 || cs.foreign {
+				return
+			}
+			id, _, verr := verify(out[0])
+			if verr != nil {
+				return
+			}
+			if got := trailers[trStatic]; len(got) != 1 || got[0] != "s" {
+				out, rerr = nil, fmt.Errorf("trailer %s is %q, the handler set [\"s\"] (its long-lived trailer metadata)", trStatic, got)
+			} else if got := trailers[trID]; len(got) != 1 || got[0] != strconv.Itoa(id) {
+				out, rerr = nil, fmt.Errorf("trailer %s is %q, the handler of call %d set [%q]: trailer metadata of another call", trID, got, id, strconv.Itoa(id))
+			}
+		}()
 		for _, f := range frames {
 			if f.Flag&0x80 != 0 {
 				// the gRPC-web trailer frame is part of the response too: nothing but this call's own trailers
@@ -208,10 +236,11 @@ func decodeReplies(w *dyn.World, cs CallSpec, res drive.Result) ([]protoreflect.
 					return nil, fmt.Errorf("trailer frame is not a header block: %v (%q)", err, trunc(f.Payload))
 				}
 				for k := range tr {
-					if k != "grpc-status" && k != "grpc-message" && k != "grpc-status-details-bin" {
+					if k != "grpc-status" && k != "grpc-message" && k != "grpc-status-details-bin" && k != trStatic && k != trID {
 						return nil, fmt.Errorf("trailer frame carries %q, which this call never set (%q)", k, trunc(f.Payload))
 					}
 				}
+				trailers = tr
 				continue
 			}
 			m := dynamicpb.NewMessage(md)
@@ -325,6 +354,8 @@ func CheckInterleave(c ICase) ([]evid.Violation, bool) {
 			}
 			if id < 0 {
 				id = mid
+				ss.SetTrailer(staticTrailer)
+				ss.SetTrailer(metadata.Pairs(trID, strconv.Itoa(id)))
 			}
 			hmu.Lock()
 			allHeld = append(allHeld, held{id, m})
@@ -623,6 +654,7 @@ func CheckStress(p SPlan) ([]evid.Violation, int, int) {
 		return req, nil
 	}
 	stream := func(full string, in, out protoreflect.MessageDescriptor, ss grpc.ServerStream) error {
+		first := true
 		for {
 			m := dynamicpb.NewMessage(in)
 			if err := ss.RecvMsg(m); err != nil {
@@ -631,8 +663,14 @@ func CheckStress(p SPlan) ([]evid.Violation, int, int) {
 				}
 				return err
 			}
-			if _, _, err := verify(m); err != nil {
+			id, _, err := verify(m)
+			if err != nil {
 				return err
+			}
+			if first {
+				first = false
+				ss.SetTrailer(staticTrailer)
+				ss.SetTrailer(metadata.Pairs(trID, strconv.Itoa(id)))
 			}
 			runtime.Gosched()
 			if err := ss.SendMsg(m); err != nil {
@@ -851,7 +889,7 @@ func CheckStress(p SPlan) ([]evid.Violation, int, int) {
 						report("panic in proxied stream: %v", res.Panic)
 						break
 					}
-					replies, err := decodeReplies(w, CallSpec{Transport: "grpc"}, res)
+					replies, err := decodeReplies(w, CallSpec{Transport: "grpc", foreign: true}, res)
 					want := n
 					if failAt >= 0 {
 						want = failAt
